@@ -27,7 +27,11 @@ BigViol(r) ==
         <<"C16", "record_outputs_not_reused", "ndefault" \notin DOMAIN r \/ r.ndefault <= (r.Q + 1) * Max({r.set_sizes[i] : i \in 1..Len(r.set_sizes)} \cup {0})>>,
         \* all records of these inputs fit into the reader's buffer, which therefore never grows; a record set's buffer is a
         \* copy of it (at most twice as large through Vec's amortised growth), however long the input is
-        <<"C16", "record_set_memory_grows_with_the_input", "maxsetcap" \notin DOMAIN r \/ r.maxsetcap <= 2 * r.cap>>,
+        \* (records larger than the buffer make it grow until the largest fits - by doubling, so to less than a few times its size)
+        <<"C16", "record_set_memory_grows_with_the_input", "maxsetcap" \notin DOMAIN r \/
+              LET recBytes(p) == IF p[1] = 1 THEN (IF r.fmt = "fastq" THEN 2 * p[2] + 12 ELSE p[2] + 6) ELSE 12
+                  maxRec == Max({recBytes(r.input[i]) : i \in 1..Len(r.input)} \cup {0})
+              IN r.maxsetcap <= (IF maxRec + 1 <= r.cap THEN 2 * r.cap ELSE 8 * (maxRec + r.cap))>>,
         <<"C16", "reader_ahead_of_consumer", "lead" \notin DOMAIN r \/ r.lead <= r.Q>>,
         <<"C07", "not_every_record_delivered", res.k # "none" \/ r.ncalls = SumSeq(r.set_sizes, 1)>>,
         <<"C07", "output_not_computed_for_this_record", r.nbad = 0>>,
@@ -87,7 +91,7 @@ SmallViol(r) ==
       stopSet == IF r.stop_after = 0 THEN 0 ELSE SetOfRec(1, r.stop_after, 0)
       expected == IF failSet > 0 /\ (stopSet = 0 \/ failSet <= stopSet) THEN "err_recinit"
                   ELSE IF stopSet > 0 THEN "some" ELSE "none"
-      deterministic == r.NW = 1 /\ isInit /\ ~r.rinit_fail /\ r.setinit_fail_at = 0 /\ wellFormed
+      deterministic == r.NW = 1 /\ isInit /\ ~r.rinit_fail /\ r.setinit_fail_at = 0 /\ wellFormed /\ ("iofail" \notin DOMAIN r \/ r.iofail = 0)
       conj == <<
         <<"C15", "record_init_failure_not_returned_single_worker", ~deterministic \/ res.k = expected>>,
         <<"C07", "record_not_of_the_input", genuine>>,
@@ -101,9 +105,14 @@ SmallViol(r) ==
         <<"C07", "early_return_value", res.k # "some" \/ (r.stop_after > 0 /\ (r.api = "read_parallel" \/ n = r.stop_after))>>,
         <<"C15", "parse_error_differs_from_sequential_reading",
             res.k \notin FormatErr \/ \E j \in 1..N : (\A i \in 1..(j - 1) : chain[i].okRec) /\ FieldsIn(res, chain[j].errs)>>,
+        \* a source that fails while a well-formed input is read: that error, with its kind, is what the call returns
+        <<"C15", "source_error_not_returned", "iofail" \notin DOMAIN r \/ r.iofail = 0 \/ ~drains \/ anyInitFault \/ ~wellFormed
+                                              \/ (res.k = "io" /\ res.kind = r.iokind)>>,
+        <<"C07", "result_after_the_end_marker", "again_some" \notin DOMAIN r \/ r.again_some = 0>>,
         <<"C15", "invalid_input_not_reported", ~(drains /\ mustFail /\ ~anyInitFault) \/ res.k \in FormatErr>>,
         <<"C15", "reader_init_failure_not_returned", ~(r.rinit_fail /\ (r.setinit_fail_at = 0 \/ r.setinit_fail_at > r.Q + 1)) \/ res.k = "err_rinit">>,
-        <<"C15", "data_set_init_failure_not_returned", ~(r.setinit_fail_at > 0 /\ r.setinit_fail_at <= r.Q + 1) \/ res.k = "err_setinit">>,
+        \* (the failing call has to be made: a reader thread that ends early stops the provision of data sets)
+        <<"C15", "data_set_init_failure_not_returned", ~(r.setinit_fail_at > 0 /\ r.setinit_fail_at <= r.nsetinit) \/ res.k = "err_setinit">>,
         <<"C15", "spurious_init_error", /\ (res.k = "err_rinit" => r.rinit_fail) /\ (res.k = "err_setinit" => r.setinit_fail_at > 0)
                                         /\ (res.k = "err_recinit" => r.recinit_fail_at > 0 /\ r.nrecinit >= r.recinit_fail_at)>>,
         <<"C15", "panic", res.k # "panic">>,
